@@ -603,3 +603,15 @@ mod tests {
         }
     }];
 }
+
+// Verification hook H5: the registered native callbacks of one mnemonic (no effect on ordinary builds)
+#[cfg(any(kani, ax_verif))]
+impl Hook {
+    pub(crate) fn verif_native_before(&self) -> &Vec<&'static RustCallbackFunction> {
+        &self.native_before
+    }
+
+    pub(crate) fn verif_native_after(&self) -> &Vec<&'static RustCallbackFunction> {
+        &self.native_after
+    }
+}
